@@ -3,6 +3,8 @@ package displayp3
 import (
 	"image/color"
 
+	"github.com/mandykoh/prism/adobergb"
+	"github.com/mandykoh/prism/prophotorgb"
 	"github.com/mandykoh/prism/srgb"
 )
 
@@ -17,6 +19,21 @@ func VerifHarness_C01_Wiring() {
 	v16, g16, b16 := verifU16(), verifU16(), verifU16()
 	ce, ae := ColorFromEncodedColor(color.RGBA64{R: v16, G: g16, B: b16, A: 65535})
 	verifAssert(verifAnd(verifAnd(verifSameF32(ce.R, srgb.From16Bit(v16)), verifSameF32(ce.G, srgb.From16Bit(g16))), verifAnd(verifSameF32(ce.B, srgb.From16Bit(b16)), ae == 1)), "displayp3.ColorFromEncodedColor(opaque) is not srgb's decoding")
+	t8 := func(v uint8) float32 { return srgb.From16Bit(uint16(uint32(v) | uint32(v)<<8)) } // 257*v, written as image/color widens it
+	same3 := func(c Color, r, g, b float32) bool {
+		return verifAnd(verifSameF32(c.R, r), verifAnd(verifSameF32(c.G, g), verifSameF32(c.B, b)))
+	}
+	c1, a1 := ColorFromEncodedColor(color.NRGBA{R: v8, G: g8, B: b8, A: 255})
+	verifAssert(verifAnd(same3(c1, t8(v8), t8(g8), t8(b8)), a1 == 1), "displayp3.ColorFromEncodedColor(opaque NRGBA) is not srgb's decoding of 257*v")
+	c2, a2 := ColorFromEncodedColor(color.RGBA{R: v8, G: g8, B: b8, A: 255})
+	verifAssert(verifAnd(same3(c2, t8(v8), t8(g8), t8(b8)), a2 == 1), "displayp3.ColorFromEncodedColor(opaque RGBA) is not srgb's decoding of 257*v")
+	c3, a3 := ColorFromEncodedColor(color.NRGBA64{R: v16, G: g16, B: b16, A: 65535})
+	verifAssert(verifAnd(same3(c3, srgb.From16Bit(v16), srgb.From16Bit(g16), srgb.From16Bit(b16)), a3 == 1), "displayp3.ColorFromEncodedColor(opaque NRGBA64) is not srgb's decoding")
+	c4, a4 := ColorFromEncodedColor(color.Gray{Y: v8})
+	verifAssert(verifAnd(same3(c4, t8(v8), t8(v8), t8(v8)), a4 == 1), "displayp3.ColorFromEncodedColor(Gray) is not srgb's decoding of 257*Y")
+	l1 := LineariseColor(color.NRGBA{R: v8, G: g8, B: b8, A: 255})
+	l2 := srgb.LineariseColor(color.NRGBA{R: v8, G: g8, B: b8, A: 255})
+	verifAssert(l1 == l2, "displayp3.LineariseColor(opaque NRGBA) differs from srgb.LineariseColor")
 	verifReach("wired")
 }
 
@@ -31,4 +48,83 @@ func VerifHarness_C02_Wiring() {
 	q := c.ToRGBA64(a)
 	verifAssert(verifAnd(verifAnd(q.R == srgb.To16Bit(x*a), q.G == srgb.To16Bit(g*a)), q.B == srgb.To16Bit(b*a)), "displayp3.ToRGBA64 does not encode with srgb.To16Bit")
 	verifReach("wired")
+}
+
+func verifEnc16(p int, x float32) uint16 {
+	switch p {
+	case 0:
+		return srgb.To16Bit(x)
+	case 1:
+		return adobergb.To16Bit(x)
+	}
+	return prophotorgb.To16Bit(x)
+}
+
+func verifEnc8(p int, x float32) uint8 {
+	switch p {
+	case 0:
+		return srgb.To8Bit(x)
+	case 1:
+		return adobergb.To8Bit(x)
+	}
+	return prophotorgb.To8Bit(x)
+}
+
+func verifDec16(p int, v uint16) float32 {
+	switch p {
+	case 0:
+		return srgb.From16Bit(v)
+	case 1:
+		return adobergb.From16Bit(v)
+	}
+	return prophotorgb.From16Bit(v)
+}
+
+func verifDec8(p int, v uint8) float32 {
+	switch p {
+	case 0:
+		return srgb.From8Bit(v)
+	case 1:
+		return adobergb.From8Bit(v)
+	}
+	return prophotorgb.From8Bit(v)
+}
+
+var verifPerms = [6][3]int{{0, 1, 2}, {0, 2, 1}, {1, 0, 2}, {1, 2, 0}, {2, 0, 1}, {2, 1, 0}}
+
+// VerifHarness_C02_Independent: the curve packages' encode tables are independent of one
+// another. The three packages make their first 16-bit encode call in every order; what
+// each returned then is what it returns once all tables exist (a table that is written
+// after it was first read becomes a different uninterpreted function, so this is decided
+// for all x at once).
+func VerifHarness_C02_Independent() {
+	x := verifF32()
+	perm := verifPerms[verifChoice(6)]
+	var e0 [3]uint16
+	var b0 [3]uint8
+	for _, p := range perm {
+		e0[p] = verifEnc16(p, x)
+		b0[p] = verifEnc8(p, x)
+	}
+	for p := 0; p < 3; p++ {
+		verifAssert(verifEnc16(p, x) == e0[p], "a package's 16-bit encoder changes its result once the other packages' tables exist")
+		verifAssert(verifEnc8(p, x) == b0[p], "a package's 8-bit encoder changes its result once the other packages' tables exist")
+	}
+	verifReach("independent")
+}
+
+// VerifHarness_C01_Independent: the same for the decode tables.
+func VerifHarness_C01_Independent() {
+	v16, v8 := verifU16(), verifU8()
+	perm := verifPerms[verifChoice(6)]
+	var d0, c0 [3]float32
+	for _, p := range perm {
+		d0[p] = verifDec16(p, v16)
+		c0[p] = verifDec8(p, v8)
+	}
+	for p := 0; p < 3; p++ {
+		verifAssert(verifSameF32(verifDec16(p, v16), d0[p]), "a package's 16-bit decoder changes its result once the other packages' tables exist")
+		verifAssert(verifSameF32(verifDec8(p, v8), c0[p]), "a package's 8-bit decoder changes its result once the other packages' tables exist")
+	}
+	verifReach("independent")
 }
